@@ -78,6 +78,7 @@ func (n *Node) boot() (err error) {
 		}
 	}()
 	app := newApp(n.DB, n.Home)
+	installGasCut(app) // on every node alike (see gascut.go)
 	if n.hooks != nil {
 		n.hooks.install(app)
 	}
